@@ -46,6 +46,9 @@ pub struct QuakeState {
     pub extras: Vec<(String, String)>,
     pub players: Vec<QPlayer>,
     pub names_with_spaces: bool,
+    /// variables sent under the *other* spelling as well (with a different value): the named
+    /// field comes from the primary spelling, the alternate one is just another variable
+    pub both_spellings: Vec<(String, String)>,
 }
 
 const Q_KNOWN: &[&str] = &["hostname", "sv_hostname", "mapname", "map", "maxclients", "sv_maxclients", "version", "*version"];
@@ -98,7 +101,25 @@ impl QuakeState {
             extras,
             players,
             names_with_spaces,
+            both_spellings: Vec::new(),
         }
+    }
+
+    /// Also send the alternate spelling of some of the variables that use the primary one.
+    pub fn add_both_spellings(&mut self, t: &mut Tape) {
+        let mut add = |t: &mut Tape, uses_alt: bool, alt: &str, out: &mut Vec<(String, String)>| {
+            if !uses_alt && t.draw(DATA, 2) == 1 {
+                out.push((alt.to_string(), q_str(t, 12, true)));
+            }
+        };
+        let mut v = Vec::new();
+        add(t, self.host_key_alt, "sv_hostname", &mut v);
+        add(t, self.map_key_alt, "map", &mut v);
+        add(t, self.max_key_alt, "sv_maxclients", &mut v);
+        if let Some((alt, _)) = &self.game_version {
+            add(t, *alt, "*version", &mut v);
+        }
+        self.both_spellings = v;
     }
 
     /// A status reply is one datagram: keep it within the MTU.
@@ -133,6 +154,9 @@ impl QuakeState {
         for (k, v) in &self.extras {
             kv(k, v);
         }
+        for (k, v) in &self.both_spellings {
+            kv(k, v);
+        }
         s.push('\n');
         for p in &self.players {
             let name = if p.quoted || p.name.contains(' ') || p.name.is_empty() { format!("\"{}\"", p.name) } else { p.name.clone() };
@@ -151,7 +175,8 @@ impl QuakeState {
     }
 
     pub fn expected(&self) -> Value {
-        let unused: BTreeMap<String, String> = self.extras.iter().cloned().collect();
+        let mut unused: BTreeMap<String, String> = self.extras.iter().cloned().collect();
+        unused.extend(self.both_spellings.iter().cloned());
         let players: Vec<Value> = self
             .players
             .iter()
